@@ -6,11 +6,12 @@ import ast
 from ..astu import U, S, has, same, walk_shallow, call_name, calls_in, kwarg, names_in, monomial, linform
 from ..cfg import build
 from ..core import AnalysisError, Mutant, Rule, Twin
-from ..idioms import target_names
+from ..idioms import target_names, none_default
 
 ID = "C08"
 EQ = "chempy/equilibria.py"
 EQS = "chempy/_eqsys.py"
+CHEM = "chempy/chemistry.py"
 ENGINES = ["E0 core", "E3 cfg"]
 TECHNIQUE = "def-use dataflow of the returned vector into the sanity flag; CFG check that `return True` of _result_is_sane is reachable only through the false edge of an un-weakened existential test (ast)"
 CLAIM = ("Decides (besides the precipitation switching conditions, dissolved() and the scalar bracketing solver's residual/result forms): the sanity flag returned by root/_solve/roots is _result_is_sane applied to the very vector returned and to the initial "
@@ -264,12 +265,59 @@ def r6_solver_chain_wiring(ctx):
     ctx.check(has(gn, "return getattr(self, 'get_neqsys_' + neqsys_type)(**new_kw)") and has(gn, "new_kw['NumSys'] = (NumSys,)"), EQ + ":EqSystem.get_neqsys", "dispatch", "get_neqsys must dispatch on the type name with a tuple of NumSys classes", node=gn)
 
 
+def r7_skeleton(ctx):
+    """arms of the scalar-solver bracket, the precipitate lookup and the solver-factory dispatch"""
+    SE = "chempy/_equilibrium.py"
+    iv = ctx.func(SE, "_get_rc_interval")
+    a = SE + ":_get_rc_interval"
+    ctx.check(has(iv, "if np.any(limits < 0): upper = -np.max(limits[np.argwhere(limits < 0)]) else: upper = 0"), a, "upper-arm",
+              "products bound the coordinate from above; without any the bound is 0", node=iv)
+    ctx.check(has(iv, "if np.any(limits > 0): lower = -np.min(limits[np.argwhere(limits > 0)]) else: lower = 0"), a, "lower-arm",
+              "reactants bound the coordinate from below; without any the bound is 0", node=iv)
+    ctx.check(has(iv, "if lower == 0 and upper == 0: raise ValueError("), a, "empty-interval-refused", "an empty bracket must be refused, not handed to brentq", node=iv)
+    er = ctx.func(SE, "equilibrium_residual")
+    ctx.check(has(er, "if not hasattr(stoich, 'ndim') or stoich.ndim == 1: c = c0 + stoich * rc else: c = c0 + np.dot(stoich, rc)"), SE + ":equilibrium_residual", "both-shapes-add-extent",
+              "both the vector and the matrix form must ADD the extent to c0", node=er)
+    ps = ctx.func(CHEM, "Reaction.precipitate_stoich")
+    a = CHEM + ":Reaction.precipitate_stoich"
+    ctx.check(has(ps, "net = self._xprecipitate_stoich(substances, True)") and has(ps, "found1 = -1"), a, "precipitate-view", "the lookup runs over the precipitate-only stoichiometry", node=ps)
+    ctx.check(has(ps, "for idx in range(len(net)): if net[idx] != 0: if found1 == -1: found1 = idx else: raise NotImplementedError("), a, "first-and-only-precipitate",
+              "the index of the single non-zero entry is recorded; a second one is refused", node=ps)
+    ctx.check(has(ps, "return net, net[found1], found1"), a, "returns(net,coeff,index)", "result is (stoichiometry, coefficient of the precipitate, its index)", node=ps)
+    xp = ctx.func(CHEM, "Reaction._xprecipitate_stoich")
+    ctx.check(has(xp, "0 if xor ^ (getattr(v, 'phase_idx', 0) > 0) else"), CHEM + ":Reaction._xprecipitate_stoich", "phase-mask",
+              "a species is a precipitate iff its phase index is > 0 (default 0); xor selects precipitates / non-precipitates", node=xp)
+    np_ = ctx.func(CHEM, "Reaction.non_precipitate_stoich")
+    ctx.check(has(np_, "return self._xprecipitate_stoich(substances, False)"), CHEM + ":Reaction.non_precipitate_stoich", "complement-view", "non-precipitate view is the complement mask", node=np_)
+    gn = ctx.func(EQ, "EqSystem.get_neqsys")
+    a = EQ + ":EqSystem.get_neqsys"
+    ctx.check(has(gn, "for k in new_kw: if k in kwargs: new_kw[k] = kwargs.pop(k)"), a, "options-forwarded", "options given by the caller override the defaults under their own names", node=gn)
+    ctx.check(has(gn, "if neqsys_type == 'static_conditions': new_kw['precipitates'] = None"), a, "static-only-option", "`precipitates` is an option of the static chain only", node=gn)
+    ctx.check(has(gn, "return getattr(self, 'get_neqsys_' + neqsys_type)(**new_kw)"), a, "dispatch-by-name", "the factory is selected by its name", node=gn)
+    ctx.check(has(gn, "try: NumSys[0] except TypeError: new_kw['NumSys'] = (NumSys,) else: new_kw['NumSys'] = NumSys"), a, "single-class->chain-of-one", "a single formulation becomes a chain of one", node=gn)
+    sc = ctx.func(EQ, "EqSystem.get_neqsys_static_conditions")
+    d = none_default(sc, "precipitates")
+    ctx.check(d is not None and U(d) == "(False,) * len(self.phase_transfer_reaction_idxs())", EQ + ":EqSystem.get_neqsys_static_conditions", "default-no-precipitate",
+              "without information no phase is assumed present: one False per phase-transfer reaction", node=sc)
+    nr = ctx.func(EQ, "EqSystem.non_precip_rids")
+    ctx.check(has(nr, "[idx for idx, precip in zip(self.phase_transfer_reaction_idxs(), precipitates) if not precip]"), EQ + ":EqSystem.non_precip_rids", "absent-phases",
+              "the reactions whose solid is absent are those flagged False", node=nr)
+    cc = ctx.func(EQ, "EqSystem.get_neqsys_conditional_chained")
+    ctx.check(has(cc, "ConditionalNeqSys(cond_cbs, factory)") and has(cc, "(self._fw_cond_factory(ri), self._bw_cond_factory(ri, NumSys[0].small)) for ri in self.phase_transfer_reaction_idxs()"),
+              EQ + ":EqSystem.get_neqsys_conditional_chained", "conditions-then-factory", "ConditionalNeqSys takes the (forward, backward) pairs first, then the factory", node=cc)
+    for q in ("EqSystem._solve", "EqSystem.root", "EqSystem.roots"):
+        fn = ctx.func(EQ, q)
+        d = none_default(fn, "x0")
+        ctx.check(d is not None and U(d) == "init_concs", EQ + ":" + q, "default-guess", "a given initial guess is used; the default is the initial concentrations", node=fn)
+
+
 RULES = [
     Rule("C08-R1", r1_flag_dataflow, 12, "sanity flag = check(returned vector, same initial concentrations) in root/_solve/roots"),
     Rule("C08-R2", r2_sanity_test, 6, "_result_is_sane: existential tests, True only when neither holds"),
     Rule("C08-R3", r3_failure_surfaced, 7, "failed solve warns; EqCalcResult stores one call's results"),
     Rule("C08-R4", r4_precipitation, 8, "precipitation switching conditions mirror each other; dissolved() stoichiometric"),
     Rule("C08-R6", r6_solver_chain_wiring, 9, "solver chain: one system per NumSys stage, no late-bound loop variable"),
+    Rule("C08-R7", r7_skeleton, 19, "bracket arms, precipitate lookup, solver-factory dispatch, default guess"),
     Rule("C08-R5", r5_scalar_solver, 6, "scalar solver: residual K-Q along c0+nu*rc, result on the same coordinate"),
 ]
 
